@@ -4,11 +4,12 @@ import math
 
 PROP_FILES = ["Props/C01.v"]
 NEEDS_GEN = True
-TRUSTED = ["Model/Cable.v + Model/TreeSolve.v are hand-written; compared on every run with Module.step (all backends) and with an independent exact assembly of the physical system (tools/cablelib.py)",
+TRUSTED = ["Model/HinesArr.v mirrors solver_voltage.py + tridiax.thomas by hand (vmap lanes are sequentialised); tools/hineslib.py reads the index structures from the module",
+           "Model/Cable.v + Model/TreeSolve.v are hand-written; compared on every run with Module.step (all backends) and with an independent exact assembly of the physical system (tools/cablelib.py)",
            "jax.experimental.sparse.linalg.spsolve and tridiax.stone are third-party and only compared, not modelled",
            "float64 rounding: bounded by the componentwise backward error (<= 1e-9) of every backend's output"]
 ASSUMPTIONS = ["the for-all is proved of the model (all trees, counts, positive parameters) and tested of the code on enumerated trees x sampled counts/parameters",
-               "the level-ordered, padded array implementation is tied to the tree-recursive model by sampled agreement, not by a refinement proof"]
+               "the level-ordered, padded array implementation is modelled operation by operation (Model/HinesArr.v, compared with step_voltage_implicit_with_jaxley_spsolve on the code's own index structures); its correctness for all array contents is a theorem conditional on the verified schedule checker accepting the index structure, which is evaluated on every sampled module, not proved for all trees"]
 
 BACKENDS = ["jaxley.thomas", "jaxley.stone", "jax.sparse"]
 
@@ -240,12 +241,61 @@ def run(ctx):
                                  got=[float(x) for x in impl]))
     except Exception as ex:
         viol.append({"kind": "correspondence could not be evaluated", "error": repr(ex)[:800], "no_failing_input_found": True})
+    # ---- array level: the code's own index structures through Model/HinesArr.v and the verified
+    #      schedule checker (theorem C01_array_solver_correct)
+    narr = 0
+    try:
+        import hineslib
+        from jaxley.solver_voltage import step_voltage_implicit_with_jaxley_spsolve  # noqa: F401
+        comp = jx.Compartment()
+        shapes = [([-1, 0, 0, 1], [2, 1, 3, 2]), ([-1], [1]), ([-1], [3]), ([-1, 0, 0], [1, 1, 1]), ([-1, 0, 0, 2, 2], [2, 3, 1, 1, 2]),
+                  ([-1, 0, 0, 1, 1, 3], [1, 2, 1, 3, 1, 1]), ([-1, 0, 0, 1, 1], [2, 1, 3, 2, 2]), ([-1, 0, 1, 1, 0], [1, 3, 1, 2, 1])]
+        for _ in range(ctx.budget(6, 40)):
+            nb = rng.randint(2, ctx.budget(7, 12))
+            shapes.append((simlib.rand_parents(rng, nb), [rng.randint(1, 4) for _ in range(nb)]))
+        mods = []
+        with simlib.quiet():
+            for parents, counts in shapes:
+                mods.append(({"parents": parents, "counts": counts}, jx.Cell([jx.Branch([comp] * n) for n in counts], parents=parents)))
+            for cells in ([([-1, 0], [2, 1]), ([-1], [1]), ([-1, 0, 0], [1, 2, 2])], [([-1], [1]), ([-1], [1])],
+                          [([-1, 0, 0, 1], [1, 1, 2, 1]), ([-1, 0], [3, 1]), ([-1], [2])]):
+                mods.append(({"network_of": cells}, jx.Network([jx.Cell([jx.Branch([comp] * n) for n in c], parents=q) for q, c in cells])))
+        exprs, metas = [], []
+        for case, m in mods:
+            st = hineslib.structure(m)
+            g, v0, vt, ct, dtq = hineslib.random_values(rng, st)
+            try:
+                chk = hineslib.coq_check_expr(st)
+            except AssertionError as ex:
+                viol.append(dict(case, kind="comp_edges of the module are not the edges of a branched cable", error=str(ex)))
+                continue
+            reals = {sv: hineslib.run_real(m, st, g, v0, vt, ct, dtq, sv) for sv in ("jaxley.thomas", "jaxley.stone")}
+            exprs += [hineslib.coq_step_expr(st, g, v0, vt, ct, dtq), hineslib.coq_step_expr(st, g, v0, vt, ct, dtq, fn="arr_divisors_okQ"), chk]
+            metas.append((case, st, reals, dict(g=[float(x) for x in g], v=[float(x) for x in v0], vt=[float(x) for x in vt], ct=[float(x) for x in ct], dt=float(dtq))))
+        outs = coqeval.coq_eval(["CableQ", "HinesArr", "HinesArrQ", "HinesCheck"], exprs, shard=3)
+        for k, (case, st, reals, vals) in enumerate(metas):
+            model = [float(x) for x in cablelib.parse_q_list(outs[3 * k])]
+            narr += 1
+            evals += 2
+            distinct.add(("arr", str(case)))
+            for sv, o in reals.items():
+                if len(o) != len(model) or max(abs(a - b) for a, b in zip(o, model)) > 1e-9 * 100:
+                    viol.append(dict(case, kind="step_voltage_implicit_with_jaxley_spsolve differs from the array-level model (Model/HinesArr.v)",
+                                     solver=sv, values=vals, got=o, model=model))
+            if outs[3 * k + 1] != "true":
+                viol.append(dict(case, kind="the array-level model divides by zero on a diagonally dominant system", values=vals))
+            if outs[3 * k + 2] != "true":
+                viol.append(dict(case, kind="the verified schedule checker rejects the index structure the code built (theorem C01_array_solver_correct no longer applies)",
+                                 cumsum=st["cs"], padded=st["pl"], ncomp=st["nc"], levels=st["levels"], roots=st["roots"], no_failing_input_found=True))
+    except Exception as ex:
+        import traceback
+        viol.append({"kind": "array-level correspondence could not be evaluated", "error": repr(ex)[:500], "trace": traceback.format_exc()[-600:], "no_failing_input_found": True})
     for v in viol:
         v.setdefault("finding_class", None)
     return {"evaluations": evals, "distinct_nontrivial": len(distinct),
             "rule": "one voltage step of every enumerated sorted tree (<=4/5 branches) x sampled compartment counts {1,2,3} + random larger trees, heterogeneous dyadic parameters, optional stimulus, dt in {0.025 .. 1e9}, bwd/CN x 3 backends + fwd on cables + networks; each output checked by exact backward error against an independent physical assembly and against Model/Cable.v in exact rationals; distinct by (tree, counts)",
             "samples": samples, "violations": viol[:20], "traces_validated_against_impl": nmodel,
-            "cases_with_padded_parent_branch": ncrit}
+            "cases_with_padded_parent_branch": ncrit, "array_level_modules": narr}
 
 
 def replay(ctx, case):
